@@ -1,6 +1,6 @@
 (* C09 -- environment variables round-trip exactly (subshell isolation is decided end-to-end, see DESIGN.md).
    Property theorems only; proofs are in ProofC09.v. *)
-From TV Require Import Base Utf8 Regex Channel ChannelLemmas Hush Session ProofSession ProofC19 Sh ProofC01 ProofC09.
+From TV Require Import Base Utf8 Utf8Lemmas Regex Channel ChannelLemmas Hush Session ProofSession ProofC19 Sh ProofC01 ProofC09 ProofEnvUtf8.
 
 (* (1) the line env(var, value) sends is read by the shell as  export NAME=VALUE  with exactly the value:
        for all names and values without NUL (leading dashes, backslashes, quotes, $, globs, newlines, blanks ...) *)
@@ -47,3 +47,18 @@ Theorem C09_read_back_through_dash_echo_refuted :
   exists v, drop_last 1 (skipn 1 (echo_out true (32%N :: v))) <> v.
 Proof. exact dash_echo_refuted. Qed.
 Print Assumptions C09_read_back_through_dash_echo_refuted.
+
+(* (3b) the same for ARBITRARY text values (Unicode scalar values, no CR): newlines, non-ASCII, trailing blanks ... *)
+Theorem C09_env_get_exact_any_text :
+  forall var v P c st1 st2 sts,
+  insync c -> prompt c = Some (SLit P) -> P <> [] ->
+  Forall scalar v -> Forall (fun b => b <> CR) v ->
+  any_in (blacklist c) (utf8_enc (get_line var) ++ [CR]) = false ->
+  any_in (blacklist c) (ECHO_Q ++ [CR]) = false ->
+  wf_pend st1 -> cat st1 = tty_echo false (utf8_enc (get_line var) ++ [CR]) ++ onlcr (utf8_enc v ++ [LF]) ++ P ->
+  prompt_only_at_end P (onlcr (utf8_enc v ++ [LF])) ->
+  wf_pend st2 -> cat st2 = tty_echo false (ECHO_Q ++ [CR]) ++ (ZERO ++ [CR; LF]) ++ P ->
+  prompt_only_at_end P (ZERO ++ [CR; LF]) ->
+  exists c', lx_env_get var (st1 :: st2 :: sts) c = (X0Ok v, c', sts) /\ insync c'.
+Proof. exact env_get_exact_utf8. Qed.
+Print Assumptions C09_env_get_exact_any_text.
